@@ -173,6 +173,12 @@ fn faults<F: Family>(p: &F::Packet, t: &mut Tape, ctx: &mut Ctx) -> CaseResult {
                 let mut w = ScriptedWriter::new(&wsteps, len);
                 shape_ctr += 1;
                 w.fault_shape = (shape_ctr % sio::ERR_SHAPES as usize) as u8;
+                // every other time the sink's flush fails too once a write has failed, with another kind: the error the
+                // caller gets is still that of the write
+                if shape_ctr % 2 == 0 {
+                    w.flush_fails_after_fault = Some(if kind == ErrorKind::BrokenPipe { ErrorKind::NotConnected } else { ErrorKind::BrokenPipe });
+                    ctx.label("flush-fails-after-write-fault");
+                }
                 let want = if zero {
                     w.zero_at = Some(k);
                     ErrorKind::WriteZero
@@ -213,6 +219,9 @@ fn faults<F: Family>(p: &F::Packet, t: &mut Tape, ctx: &mut Ctx) -> CaseResult {
                 let mut w = ScriptedWriter::new(&ws, blen);
                 shape_ctr += 1;
                 w.fault_shape = (shape_ctr % sio::ERR_SHAPES as usize) as u8;
+                if shape_ctr % 2 == 0 {
+                    w.flush_fails_after_fault = Some(if kind == ErrorKind::BrokenPipe { ErrorKind::NotConnected } else { ErrorKind::BrokenPipe });
+                }
                 let want = if zero {
                     w.zero_at = Some(k);
                     ErrorKind::WriteZero
@@ -362,6 +371,7 @@ pub fn run(env: &mut Env) -> RunResult {
     env.run_inputs(SUB_CONV, &[Input::Nums(vec![0])])?;
     for s in ["c14.faults.v3", "c14.faults.v5", "c14.typed.v3", "c14.typed.v5"] {
         env.require(s, "one-shot-failure:retryable-kind");
+        env.require(s, "flush-fails-after-write-fault");
         for l in SHAPE_LABELS {
             env.require(s, l);
         }
